@@ -296,9 +296,19 @@ def r4_raman_gate(ctx):
     pla = [c for c in comps if ast.unparse(c.generators[0].ifs[0]) == f'not {ast.unparse(c.generators[0].target.elts[1])}.raman']
     ok = len(ram) == 1 and len(pla) == 1
     if ok:
+        # the Raman list is built only where raman_allowed holds and is [] otherwise; the plain list is unconditional
+        # (conditional expression, two-armed if or default + override: read off the structure)
+        from .common import holds_at
+        rst, pst = stmt_of(fl, ram[0]), stmt_of(fl, pla[0])
+        rname = rst.targets[0].id if isinstance(rst, ast.Assign) and isinstance(rst.targets[0], ast.Name) else None
+        others = [n for n in walk_no_nested(fl.node) if isinstance(n, ast.Assign) and isinstance(n.targets[0], ast.Name) and
+                  n.targets[0].id == rname and n is not rst]
         par = getattr(ram[0], '_parent', None)
-        ok = isinstance(par, ast.IfExp) and par.body is ram[0] and ast.unparse(par.test) == 'raman_allowed' and ast.unparse(par.orelse) == '[]'
-        ok = ok and not isinstance(getattr(pla[0], '_parent', None), ast.IfExp)
+        as_expr = isinstance(par, ast.IfExp) and par.body is ram[0] and ast.unparse(par.test) == 'raman_allowed' and ast.unparse(par.orelse) == '[]'
+        as_stmt = rname is not None and 'raman_allowed' in holds_at(rst) and len(others) == 1 and ast.unparse(others[0].value) == '[]' and \
+            'not raman_allowed' in holds_at(others[0])
+        ok = (as_expr or as_stmt) and not isinstance(getattr(pla[0], '_parent', None), ast.IfExp) and \
+            not any('raman' in c for c in holds_at(pst))
     ctx.check('R4.raman-gate', site(fl), ok, key(fl, 'raman-list'),
               'Raman models are not confined to the Raman list, or that list is not empty when Raman is not allowed')
     ctx.need('R4.raman-gate', 2)
@@ -355,7 +365,7 @@ def r5_capability(ctx):
                   f'the minimum-gain margin is not gain_target {"" if raman else "+ 3 "}- gain_min', vkey(gm)[:120])
         nf = kw.get('nf')
         ctx.check('R5.capability', f'{site(f, c)} {label} NF at the required gain', nf is not None and
-                  ast.unparse(nf) == f'edfa_nf(gain_target, {lib}[{vname}])', key(f, f'nf|{label}'),
+                  ast.unparse(nf) in (f'edfa_nf(gain_target, {lib}[{vname}])', f'edfa_nf(gain_target, {model})'), key(f, f'nf|{label}'),
                   'candidates are not ranked by their NF at the required gain')
         # iterated: the permitted set itself or a plain copy of it
         it = g.iter
@@ -377,16 +387,17 @@ def r5_capability(ctx):
         """(iterated name, normalised condition) of a one-generator list comprehension returning its own variable"""
         g = c.generators[0]
         v = g.target.id if isinstance(g.target, ast.Name) else None
-        if v is None or ast.unparse(c.elt) != v or len(c.generators) != 1 or len(g.ifs) != 1 or not isinstance(g.iter, ast.Name):
+        if v is None or ast.unparse(c.elt) != v or len(c.generators) != 1 or len(g.ifs) != 1:
             return None
         cond = ast.unparse(g.ifs[0])
         import re
-        return g.iter.id, re.sub(rf'\b{v}\b', '_', cond)
+        # what is filtered: a local, or the expression written in place
+        return (g.iter.id if isinstance(g.iter, ast.Name) else g.iter), re.sub(rf'\b{v}\b', '_', cond)
     rets = [n for n in walk_no_nested(f.node) if isinstance(n, ast.Return)]
     R = rets[-1].value.id if rets and isinstance(rets[-1].value, ast.Name) else None
     shapes = [shape(c) for c in comp_defs(R)] if R else []
     shapes = [x for x in shapes if x]
-    srcs = {x[0] for x in shapes}
+    srcs = {x[0] if isinstance(x[0], str) else ast.unparse(x[0]) for x in shapes}
     ok = len(shapes) == 2 and len(srcs) == 1 and any(x[1] == '0 < _.power' for x in shapes)
     ctx.check('R5.capability', f'{site(f)} power filter', ok, key(f, 'filter|power'),
               'the returned list is not the gain-acceptable candidates whose power score is > 0 (with the fall-back below)', f'{shapes}')
@@ -408,7 +419,10 @@ def r5_capability(ctx):
     ctx.check('R5.capability', f'{site(f)} gain filter', ok, key(f, 'filter|gain'),
               'candidates are not first kept on a positive minimum-gain margin', f'{s2}')
     L1 = s2[0][0] if s2 else None
-    merged = [v for _, v in defs.get(L1, []) if isinstance(v, ast.BinOp) and isinstance(v.op, ast.Add)] if L1 else []
+    if isinstance(L1, ast.AST):
+        merged = [L1] if isinstance(L1, ast.BinOp) and isinstance(L1.op, ast.Add) else []
+    else:
+        merged = [v for _, v in defs.get(L1, []) if isinstance(v, ast.BinOp) and isinstance(v.op, ast.Add)] if L1 else []
     # each of the two constructor comprehensions feeds exactly one operand of the merge (through a local or written in place)
     def feeds(c, operand):
         if any(x is c for x in ast.walk(operand)):
